@@ -38,6 +38,7 @@ class Array(DaskMethodsMixin):
         named_schedulers.get("threads", named_schedulers["sync"])
     )
     __dask_optimize__ = staticmethod(lambda dsk, keys, **kwargs: dsk)
+    __array_priority__ = 11  # higher than numpy.ndarray and numpy.matrix
 
     def __init__(self, expr):
         self._expr = expr
